@@ -428,6 +428,9 @@ pub fn random_history(rep: &mut Report, rng: &mut Rng, n_keys: usize, n_ops: usi
 			return;
 		}
 	}
+	if rep.samples.len() < 2 {
+		rep.sample(json!({"family": "random-histories", "keys": n_keys, "operations": n_ops, "first_operations": hist.iter().take(12).map(op_json).collect::<Vec<_>>(), "final_entries": m.entries.len()}));
+	}
 	rep.distinct_hash(fnv(format!("{:?}", hist.iter().take(40).collect::<Vec<_>>()).as_bytes()) ^ n_ops as u64);
 }
 
